@@ -4,7 +4,7 @@ import re
 from fractions import Fraction
 
 from ..tyob import *  # noqa
-from ..tyob import analyse, expect, item, unmodelled_in
+from ..tyob import analyse, expect, item, unmodelled_in, no_truncation
 from ..poly import Normaliser, Poly, straightline_env
 from ..program import norm_stmt
 
@@ -17,22 +17,27 @@ def run(chk):
     P = chk.P
     chk.rule("R-STEP-PARITY", "the step-fit error is even in the data (error(-x) == error(x)), of degree pow, for each documented power "
                               "{1, 2}: every term must be |.|**pow (a signed mean**pow is odd for pow = 1)")
+    chk.rule("R-STEP-DTYPE", "for integer data no real error value is stored into an integer buffer (np.ones_like(values) inherits the dtype)")
     chk.rule("R-STEP-LEVELS", "step levels are the means of values[:ind] and values[ind+1:] (both exclude the split sample); the default "
                               "split is the argmin of the error")
     chk.rule("R-ROLL", "rolling average: length kept on all three modes, linear, divided by the same `steps` that defines the lag; "
                        "forward pads after, backward before, centre floor(steps/2) before and the rest after")
     chk.rule("R-LEFT", "interp_left: index = searchsorted(x, x0, side='right') - 1 (greatest node <= query); scalar in, scalar out")
+    chk.rule("R-I2D", "table interpolation: result = (1-s)*f[lower] + s*f[upper] with s = (x-a_lower)/(a_upper-a_lower), table and nodes "
+                      "indexed by the same bracket, upper = lower + 1 before clamping, lower clamped at 0 and upper at len-1; linear in the table")
     chk.rule("R-NZS-SIB", "c_h_factor and sd_nzs: identical breakpoints per site class and, per interval, sd branch = c_h branch * T^2; "
                           "sd multiplies by Z*N*R once; t_eff's corner constants/period equal the last interval's coefficient/breakpoint")
     chk.rule("R-NZS-CONT", "adjacent branches agree within 1 % at their common breakpoint (constant folding of the literals)")
     step_rules(chk)
     roll_rules(chk)
     left_rules(chk)
+    interp2d_rules(chk)
     nzs_rules(chk)
     chk.floor("R-STEP-PARITY", 6)
     chk.floor("R-STEP-LEVELS", 4)
     chk.floor("R-ROLL", 14)
     chk.floor("R-LEFT", 4)
+    chk.floor("R-I2D", 6)
     chk.floor("R-NZS-SIB", 24)
     chk.floor("R-NZS-CONT", 12)
 
@@ -51,6 +56,20 @@ def step_rules(chk):
                 chk.ob("R-STEP-PARITY", c + "{%s}" % e.stmt, "every stored error term is even in the data", False,
                        derived=alg_str(e.value.a(R)), loc=e.loc, stmt=e.stmt,
                        detail="for pow=1 the padded-zero correction mean**pow is odd: error(x) != error(-x) as soon as a side mean is negative")
+    # integer data: the error array must not be an integer buffer
+    no_truncation(chk, "R-STEP-DTYPE", q, lambda I, st, fi: dict(values=rec_array("values", dtype="int"), pow=const_av(1)),
+                  "eqsig/fns/average.py:calc_step_fn_vals_error", what="integer data")
+    # the power is applied to each deviation, inside the sums (sum(|d|**p), not sum(|d|)**p)
+    fi = P.fn(q)
+    sums = [n for n in ast.walk(fi.node) if isinstance(n, ast.Call) and ast.unparse(n.func).split(".")[-1] == "sum" and n.args and
+            any(isinstance(x, ast.Call) and ast.unparse(x.func).split(".")[-1] in ("abs", "absolute") for x in ast.walk(n.args[0]))]
+    pows_outside = [n for n in ast.walk(fi.node) if isinstance(n, ast.BinOp) and isinstance(n.op, ast.Pow) and any(n.left is s_ for s_ in sums)]
+    inside = [s_ for s_ in sums if any(isinstance(x, ast.BinOp) and isinstance(x.op, ast.Pow) and isinstance(x.right, ast.Name) and x.right.id == "pow"
+                                      for x in ast.walk(s_.args[0]))]
+    chk.ob("R-STEP-PARITY", "eqsig/fns/average.py:calc_step_fn_vals_error{power inside the sums}",
+           "each of the three error sums is sum(|deviation| ** pow): the power is applied per sample", len(sums) == 3 and len(inside) == 3 and
+           not pows_outside, derived="%d abs-sums, %d with `** pow` inside, %d raised to a power as a whole" % (len(sums), len(inside), len(pows_outside)),
+           loc=fi.loc(pows_outside[0]) if pows_outside else fi.loc())
     q2 = AV_ + "calc_step_fn_steps_vals"
     r = analyse(chk, q2, lambda I, st, fi: dict(values=rec_array("values"), ind=int_scalar("ind", "k")))
     c = "eqsig/fns/average.py:calc_step_fn_steps_vals"
@@ -145,6 +164,105 @@ def _mode_branches(fi):
                     break
             break
     return out
+
+
+def interp2d_rules(chk):
+    """Structural clauses of the table interpolation (bracketing by nearest node, clamping, convex weights)."""
+    P = chk.P
+    q = GEN + "interp2d"
+    fi = P.fn(q)
+    c = "eqsig/fns/generic.py:interp2d"
+    nm = Normaliser()
+    assigns = [n for n in fi.node.body if isinstance(n, ast.Assign) and len(n.targets) == 1 and isinstance(n.targets[0], ast.Name)]
+    seq = [(n.targets[0].id, n) for n in assigns]
+    first = {}
+    for name, n in seq:
+        first.setdefault(name, n)
+    def callname(e):
+        return ast.unparse(e.func).split(".")[-1] if isinstance(e, ast.Call) else None
+    # names: lower / upper bracket indices = the two names used to index both the table and the nodes
+    rets = [n for n in ast.walk(fi.node) if isinstance(n, ast.Return)]
+    env = straightline_env(fi.node.body, Normaliser(), exclude={"x", "xf", "f"})
+    ok_form = False
+    why = "no return"
+    if len(rets) == 1:
+        # inline only the weights: s1 = 1 - s0
+        loc_env = Normaliser()
+        for name, n in seq:
+            if name in ("s1",) and sum(1 for k, _ in seq if k == name) == 1:
+                loc_env.env[name] = loc_env.poly(n.value)
+        p = loc_env.poly(rets[0].value)
+        want = Poly.atom("f0") - Poly.atom("s0") * Poly.atom("f0") + Poly.atom("s0") * Poly.atom("f1")
+        ok_form = p == want
+        why = p.canon()
+    chk.ob("R-I2D", c + "{weights}", "result = (1 - s) * f[lower] + s * f[upper]: weights sum to one", ok_form, derived=why, loc=fi.loc(rets[0]) if rets else fi.loc())
+    # pairing: f0/a0 use the lower index, f1/a1 the upper index
+    idx = {}
+    for name in ("f0", "f1", "a0", "a1"):
+        n = first.get(name)
+        if n is not None and isinstance(n.value, ast.Subscript) and isinstance(n.value.value, ast.Name) and isinstance(n.value.slice, ast.Name):
+            idx[name] = (n.value.value.id, n.value.slice.id)
+    okp = len(idx) == 4 and idx["f0"][0] == idx["f1"][0] == "f" and idx["a0"][0] == idx["a1"][0] == "xf" and idx["f0"][1] == idx["a0"][1] and \
+        idx["f1"][1] == idx["a1"][1] and idx["f0"][1] != idx["f1"][1]
+    chk.ob("R-I2D", c + "{pairing}", "table rows and node abscissae are taken at the same (lower, upper) bracket indices", okp, derived="%s" % idx, loc=fi.loc())
+    lo, up = (idx["f0"][1], idx["f1"][1]) if okp else ("ind0", "ind1")
+    # weight: s = (x - a_lower) / (a_upper - a_lower) where the bracket is non-degenerate, 1 otherwise
+    s0 = first.get("s0")
+    oks = False
+    whys = "no definition of s0"
+    if s0 is not None and callname(s0.value) == "where" and len(s0.value.args) == 3:
+        cnd, tv, fv = s0.value.args
+        wenv = Normaliser()
+        for name, n in seq:
+            if name in ("denom", "denom_adj") and sum(1 for k, _ in seq if k == name) == 1:
+                if name == "denom_adj" and callname(n.value) == "clip":
+                    wenv.env[name] = wenv.poly(n.value.args[0])
+                else:
+                    wenv.env[name] = wenv.poly(n.value)
+        pt = wenv.poly(tv)
+        wantw = (Poly.atom("x") - Poly.atom("a0")) * (Poly.atom("a1") - Poly.atom("a0")).inverse()
+        oks = pt == wantw and isinstance(fv, ast.Constant) and fv.value == 1 and " > 0" in ast.unparse(cnd)
+        whys = "%s where %s else %s" % (pt.canon(), ast.unparse(cnd), ast.unparse(fv))
+    chk.ob("R-I2D", c + "{weight}", "s = (x - a_lower) / (a_upper - a_lower) on a non-degenerate bracket, 1 otherwise", oks, derived=whys,
+           loc=fi.loc(s0) if s0 is not None else fi.loc())
+    # bracketing: before clamping, upper = lower + 1, both selected by the same comparison with the nearest node
+    order = [name for name, _ in seq]
+    defs = {}
+    for name, n in seq:
+        defs.setdefault(name, []).append(n)
+    pre_lo, pre_up = (defs.get(lo) or [None])[0], (defs.get(up) or [None])[0]
+    okb = False
+    whyb = "bracket definitions not found"
+    if pre_lo is not None and pre_up is not None:
+        if callname(pre_lo.value) == "where" and callname(pre_up.value) == "where" and len(pre_lo.value.args) == 3 and len(pre_up.value.args) == 3:
+            c0, a0_, b0_ = pre_lo.value.args
+            c1, a1_, b1_ = pre_up.value.args
+            same_c = " ".join(ast.unparse(c0).split()) == " ".join(ast.unparse(c1).split())
+            d_a = nm.poly(a1_) - nm.poly(a0_)
+            d_b = nm.poly(b1_) - nm.poly(b0_)
+            okb = same_c and d_a == Poly.const(1) and d_b == Poly.const(1)
+            whyb = "same condition: %s; upper-lower = %s / %s" % (same_c, d_a.canon(), d_b.canon())
+        elif callname(pre_lo.value) == "where":
+            # upper = lower + 1 computed from the UNclamped lower index
+            pu = nm.poly(pre_up.value)
+            before_clip = seq.index((up, pre_up)) < min([k for k, (nme, n) in enumerate(seq) if nme == lo and n is not pre_lo] or [10 ** 6])
+            okb = pu == Poly.atom(lo) + Poly.const(1) and before_clip
+            whyb = "upper = %s, computed before the lower index is clamped: %s" % (pu.canon(), before_clip)
+    chk.ob("R-I2D", c + "{bracket}", "before clamping the upper index is the lower index + 1 around the nearest node", okb, derived=whyb,
+           loc=fi.loc(pre_up) if pre_up is not None else fi.loc(), detail="a query below the first node would be extrapolated instead of clamped" if not okb else None)
+    clips = {}
+    for name in (lo, up):
+        for n in defs.get(name, [])[1:]:
+            if callname(n.value) == "clip" and len(n.value.args) == 3:
+                clips[name] = (" ".join(ast.unparse(n.value.args[0]).split()), ast.unparse(n.value.args[1]), " ".join(ast.unparse(n.value.args[2]).split()))
+    okc = clips.get(lo) == (lo, "0", "None") and clips.get(up) == (up, "None", "len(xf) - 1")
+    chk.ob("R-I2D", c + "{clamping}", "lower index clamped at 0, upper index at len(xf) - 1 (each clamps itself)", okc, derived="%s" % clips, loc=fi.loc())
+    r = analyse(chk, q, lambda I, st, fi: dict(x=AV(kind=K_ARRAY, dtype="real", shape=(LinExpr("Q"),), origin=frozenset(["p:x"]), tags=frozenset(["p:x"])),
+                                               xf=AV(kind=K_ARRAY, dtype="real", shape=(LinExpr("X"),), mono=frozenset([0]), origin=frozenset(["p:xf"]),
+                                                     tags=frozenset(["p:xf"])),
+                                               f=rec_array("f", shape=(LinExpr("X"), LinExpr("C")))))
+    unmodelled_in(r, chk, "R-I2D", c)
+    expect(chk, "R-I2D", c + ".result", r.ret, shape=("Q", "C"), lin=[R], tags_has=["p:x", "p:xf", "red:argmin"], kind=K_ARRAY, loc=fi.loc())
 
 
 def left_rules(chk):
